@@ -139,6 +139,26 @@ func condCmp(mx, my func(ssa.Value) bool, gop token.Token) CondPred {
 		if op == negOp(gop) {
 			return true, false
 		}
+		// a length is never negative: len(x) > 0, len(x) != 0 and !(len(x) == 0) are one condition
+		if lc, isCall := x.(*ssa.Call); isCall && isCallTo(lc, "builtin", "", "len") {
+			if k, isK := constInt(y); isK && k == 0 {
+				norm := func(o token.Token) token.Token {
+					switch o {
+					case token.NEQ:
+						return token.GTR
+					case token.EQL:
+						return token.LEQ
+					}
+					return o
+				}
+				if norm(op) == norm(gop) {
+					return true, true
+				}
+				if norm(op) == norm(negOp(gop)) {
+					return true, false
+				}
+			}
+		}
 		return false, false
 	}
 }
